@@ -28,7 +28,7 @@ RULE = ("Episodes over continuous (Box) and discrete portfolio spaces, contract 
 ASSUMPTIONS = ["ambiguous encodings (bool, integral floats for Discrete) are not generated",
                "reference membership: Box = float64-convertible array of the exact shape with low <= x <= high (NaN out); "
                "Discrete = Python int or numpy integer in [0, n)"]
-REQUIRED = ["C17:malformed-rejected-in-time", "C17:no-effect-on-reject", "C17:malformed-never-executed", "C17:allocation-denoted",
+REQUIRED = ["C17:continue-after-rejection", "C17:malformed-rejected-in-time", "C17:no-effect-on-reject", "C17:malformed-never-executed", "C17:allocation-denoted",
             "C17:target-reached", "C17:residual-in-cash"]
 REQUIRED_CATS = ["bounds-exclude-zero", "fit-transformers", "per-contract-bounds", "second-episode", "box", "discrete", "with-cash", "nr-contracts", "delay:1", "delay:2"]
 REQUIRED_HITS = ["Broker.transact", "Broker.rebalance"]
@@ -202,6 +202,46 @@ def case(ctx, i, tier):
                       want={c.symbol: v for c, v in want.items()})
             k2 += 1
         ctx.cat("second-episode")
+    # a third episode in which the caller CATCHES the rejection and carries on: a reference FIFO of
+    # d pending actions says what is due at every call; the malformed action, when due, is rejected
+    # without effect and nothing else is lost, duplicated or reordered
+    if not fitted:
+        import collections
+        with ep.EpMonitor(sink) as mon3:
+            del sink.log[:]
+            env.reset()
+            model = collections.deque([None] * d)          # None = null action
+            done = False
+            k3 = 0
+            inj3 = rng.randint(0, 2)
+            BAD = object()
+            while not done and k3 < n + 2:
+                a = bad if k3 == inj3 else valid()
+                model.appendleft(BAD if k3 == inj3 else a)
+                due = model.pop()
+                nt0, ntr0, h0 = mon3.n_transact, len(env.broker.track_record), env.broker.holdings_quantity
+                try:
+                    o, r, done, info = env.step(a)
+                    raised = False
+                except EndOfEpisodeError:
+                    break
+                except Exception:
+                    raised = True
+                if due is BAD:
+                    ctx.check("C17:continue-after-rejection", raised and mon3.n_transact == nt0 and
+                              len(env.broker.track_record) == ntr0 and env.broker.holdings_quantity == h0,
+                              step=k3, raised=raised, malformed=bad_name, delay=d)
+                elif raised:
+                    ctx.check("C17:continue-after-rejection", False, step=k3, note="an in-space action was rejected",
+                              malformed=bad_name, delay=d, injected=inj3)
+                    break
+                else:
+                    al = dict(info["_rebalancing"].allocation)
+                    want = {} if due is None else {c: w for c, w in zip(contracts, denote(due)) if not isinstance(c, Cash) and w != 0}
+                    ctx.check("C17:continue-after-rejection", al == want, step=k3, delay=d, injected=inj3,
+                              got={c.symbol: v for c, v in al.items()}, want={c.symbol: v for c, v in want.items()})
+                k3 += 1
+            ctx.cat("continued-after-rejection")
     if not rejected:
         ctx.check("C17:malformed-rejected-in-time", not (inj + d < k), never_rejected=True, injected=inj, delay=d, steps=k,
                   malformed=bad_name)
